@@ -33,3 +33,24 @@ theorem C08_blocklisted_opaque_is_no (g : IR) (cx : DeriveCtx) (t : DeriveTrait)
   simp [blocklistedImpl, hs]
 
 end BindgenModel.Analyses
+
+namespace BindgenModel.C10
+open BindgenModel.IR BindgenModel.Analyses
+
+/-- Known finding `opaque_empty_base_counted`.  `struct E {}; struct D : E { int x; };` — `CompInfo::codegen`
+leaves a base out of the emitted record when the sizedness analysis calls it zero-sized ("we won't include
+zero-sized types in our base chain").  For the empty record as it is the answer is `ZeroSized` (0): no `_base`
+member, as the C++ compiler's empty-base optimisation wants.  Made opaque, the rule looks at the layout libclang
+reports for an empty class (1 byte) instead of at the members and answers `NonZeroSized` (2): the derived record
+gets a one-byte `_base` and no longer has the C++ layout. -/
+def emptyBase (isOp : Bool) : IR :=
+  { items := #[{}, { id := 1, kind := .type, tk := .comp, allowlisted := true, isOpaque := isOp, layout := some (1, 1) },
+               { id := 2, kind := .type, tk := .comp, allowlisted := true, layout := some (4, 4), bases := [(1, false)],
+                 fields := [.inl 3], edges := [(1, .baseMember), (3, .field)] },
+               { id := 3, kind := .type, tk := .int, allowlisted := true, layout := some (4, 4) }] }
+
+theorem C10_opaque_empty_base_is_sized :
+    ((sizednessInstance (emptyBase false) fun _ => false).solve 4).getD 1 0 = 0 ∧
+    ((sizednessInstance (emptyBase true) fun _ => false).solve 4).getD 1 0 = 2 := by decide
+
+end BindgenModel.C10
